@@ -4,7 +4,7 @@ from __future__ import annotations
 
 from dataclasses import dataclass, field
 
-ELEMENT_A = {"H": 1, "D": 2, "He": 4, "C": 12, "N": 14, "O": 16, "Si": 28, "S": 32, "Mg": 24, "Fe": 56,
+ELEMENT_A = {"M": 0, "13C": 13, "H": 1, "D": 2, "He": 4, "C": 12, "N": 14, "O": 16, "Si": 28, "S": 32, "Mg": 24, "Fe": 56,
              "Na": 23, "Cl": 35, "P": 31, "F": 19}
 
 PSEUDO = ["CR", "CRP", "PHOTON", "CRPHOT", "Photon", "XRAY"]
@@ -111,7 +111,7 @@ class AReac:
 
 
 def random_network(rng, pool, n_species, n_reac, max_re=3, max_pr=5, with_pseudo=True, dup_rate=0.1,
-                   electron_spellings=("e-",), window_rate=0.3, indexed=True, forced=()):
+                   electron_spellings=("e-",), window_rate=0.3, indexed=True, forced=(), third_body=False):
     """random (unbalanced) reactions over a random sub-pool"""
     n_species = min(n_species, len(pool))
     sub = rng.sample(pool, n_species) if n_species else []
@@ -142,7 +142,9 @@ def random_network(rng, pool, n_species, n_reac, max_re=3, max_pr=5, with_pseudo
                 pr_[1] = pr_[0]
             r = AReac(re_, pr_)
             if with_pseudo and len(re_) < max_re and rng.random() < 0.25:
-                r.pseudo_re = [rng.choice(PSEUDO[:4])]
+                r.pseudo_re = [rng.choice(PSEUDO[:4] + (["M", "M"] if third_body else []))]
+                if r.pseudo_re == ["M"] and len(pr_) < max_pr and rng.random() < 0.7:
+                    r.pseudo_pr = ["M"]                      # A + B + M -> AB + M
             if with_pseudo and len(pr_) < max_pr and rng.random() < 0.1:
                 r.pseudo_pr = ["Photon"]
         if rng.random() < window_rate:
